@@ -132,6 +132,9 @@ class HandlerPolicy(Policy):
             leaf = args[0]
             if getattr(self, "snapshot", False) and leaf.fields.get("$stmt") is not None and isinstance(fval.recv, ObjV):
                 cfg = cfg.emit(("snapshot", cfg.heap.get(f"{fval.recv.oid}.sym_table")))
+                extra = getattr(self, "snapshot_attrs", ())
+                if extra:
+                    cfg = cfg.emit(("snapshot_attrs", tuple((a, cfg.heap.get(f"{fval.recv.oid}.{a}")) for a in extra)))
             cfg = cfg.emit(("eval", leaf.path))
             if self.raise_at_eval:
                 out.add("raise", cfg.set("$exc", ExcV("Exception", f"eval {leaf.path}")))
